@@ -21,6 +21,7 @@ import (
 	"github.com/go-netty/go-netty/codec/xhttp"
 
 	"verifharness/mock"
+	"verifharness/sched"
 )
 
 type HttpReq struct {
@@ -216,26 +217,11 @@ func runHttpCase(c *HttpCase) *HttpResult {
 		off += k
 	}
 	pl.ServeChannel(ch)
-	// wait until the connection is closed or nothing moves any more
-	last, stable := -1, 0
-	for it := 0; it < 4000; it++ {
-		time.Sleep(500 * time.Microsecond)
-		n, _, _ := tr.Lens()
-		mu.Lock()
-		h := len(order)
-		mu.Unlock()
-		if tr.IsClosed() {
-			break
-		}
-		if n+h*1000000 == last {
-			stable++
-			// Close of a queued channel may sleep 100ms while the sender is busy
-			if (!c.Async && stable > 60) || stable > 500 {
-				break
-			}
-		} else {
-			stable, last = 0, n+h*1000000
-		}
+	// wait until nothing can move any more: every other goroutine is blocked waiting for somebody else (read from
+	// the goroutine statuses, not guessed from a period of silence - Close of a queued channel sleeps 100 ms at a time)
+	if !sched.WaitQuiet(30 * time.Second) {
+		res.HarnessErr = "the exchange did not come to rest within 30s"
+		return res
 	}
 	time.Sleep(2 * time.Millisecond)
 	stream, flushedTo, _, _ := tr.Snapshot()
